@@ -122,7 +122,13 @@ const _: () = assert!(
 
 /// Size of each database page in bytes (16KB).
 /// This is the fundamental unit of I/O and caching.
+#[cfg(not(kahflane_turdb_verif_small_pages))]
 pub const PAGE_SIZE: usize = 16384;
+
+/// Verification hook (never set in normal builds): the same code compiled with 256-byte pages so
+/// that page-level obligations stay within a bounded model checker's reach. See /verif/DESIGN.md.
+#[cfg(kahflane_turdb_verif_small_pages)]
+pub const PAGE_SIZE: usize = 256;
 
 /// Size of the page header in bytes.
 /// Every page begins with this header containing type, flags, and metadata.
